@@ -44,7 +44,7 @@ def generate(seed, tier="quick"):
         if expensive and c < 0.35:
             k = rnd.choice(["prior_sample", "rejection_by_count"])
             if k == "prior_sample":
-                op = {"id": oid, "op": "prior_sample", "size": rnd.randint(1, 6), "generate_linear": rnd.random() < 0.3, "return_logprobs": rnd.random() < 0.3, "rewind": rnd.random() < 0.6}
+                op = {"id": oid, "op": "prior_sample", "size": rnd.randint(1, 6), "generate_linear": rnd.random() < 0.5, "return_logprobs": rnd.random() < 0.3, "rewind": rnd.random() < 0.6}
             else:
                 op = {"id": oid, "op": "rejection_by_count", "data": 0, "N": rnd.randint(2, 12), "in_memory": rnd.random() < 0.5, "kw": {"n_linear_samples": rnd.choice([1, 2])}}
                 if not op["in_memory"]:
